@@ -118,8 +118,92 @@ Section NodeFrame.
       destruct bprops as [|[v sc] [|]].
       + destruct (xsimple _); [|discriminate]. exact (Hrest _ _ _ (frame_refl s0) H).
       + destruct (conv_xvar cv nm v sc s0) as [[[vd deny] sa]|] eqn:Hv; [|discriminate].
-        refine (Hrest _ _ _ _ H). exact (conv_xvar_frame _ _ _ _ _ _ _ (Forall_inv HQ v sc eq_refl) Hv).
+        refine (Hrest _ _ _ _ H). exact (conv_xvar_frame _ _ _ _ _ _ _ (Forall_inv HQ v sc (or_introl eq_refl)) Hv).
       + destruct (xsimple _); [|discriminate]. exact (Hrest _ _ _ (frame_refl s0) H).
+  Qed.
+
+  Lemma conv_avariant_frame nm tg ct b s0 v vd d s1 :
+    PropP Q b -> conv_avariant cv nm tg ct b s0 = Some (v, vd, d, s1) -> frame s0 s1.
+  Proof.
+    intros HQ. destruct b as [bb|bty bfmt benum bcst bnv bsv bik bitems bai bmni bmxi buq bprops breq bap bmnp bmxp ballo banyo boneo bno bref bdflt btitle];
+      [discriminate|]. cbn [conv_avariant].
+    assert (Hpay : forall (vn : option ustring) sc, Q sc ->
+              match vn with
+              | Some v0 => match conv_xvar cv nm (match nm with NRequired _ => ct | _ => v0 end) sc s0 with
+                           | Some (vd0, deny, sa) => Some (v0, vd0, deny, sa)
+                           | None => None
+                           end
+              | None => None
+              end = Some (v, vd, d, s1) -> frame s0 s1).
+    { intros [v0|] sc HQs H; [|discriminate].
+      destruct (conv_xvar cv nm _ sc s0) as [[[vd0 deny] sa]|] eqn:Hv; [|discriminate]. injection H as _ _ _ <-.
+      exact (conv_xvar_frame _ _ _ _ _ _ _ HQs Hv). }
+    destruct bprops as [|[k1 s1'] [|[k2 s2'] [|]]]; try discriminate.
+    - destruct (cstr s1'); [|discriminate]. intro H. injection H as _ _ _ <-. apply frame_refl.
+    - destruct (ustr_eqb k1 tg).
+      + apply Hpay. apply (HQ k2 s2'). right. left. reflexivity.
+      + apply Hpay. apply (HQ k1 s1'). left. reflexivity.
+  Qed.
+
+  Lemma conv_abranches_frame nm tg ct : forall bs, Forall (PropP Q) bs -> forall s0 rvs dn s1,
+    conv_abranches cv nm tg ct bs s0 = Some (rvs, dn, s1) -> frame s0 s1.
+  Proof.
+    induction bs as [|b r IH]; intros HQ s0 rvs dn s1 H; cbn [conv_abranches] in H.
+    - injection H as _ _ <-. apply frame_refl.
+    - destruct (conv_avariant cv nm tg ct b s0) as [[[[v vd] d1] sa]|] eqn:Hv; [|discriminate].
+      destruct (conv_abranches cv nm tg ct r sa) as [[[vs2 d2] s2]|] eqn:Hr; [|discriminate].
+      injection H as _ _ <-. eapply frame_trans; [exact (conv_avariant_frame _ _ _ _ _ _ _ _ _ (Forall_inv HQ) Hv)|].
+      exact (IH (Forall_inv_tail HQ) _ _ _ _ Hr).
+  Qed.
+
+  Lemma conv_props_skip_frame tg base req : forall props, Forall (fun kv => Q (snd kv)) props -> forall s0 ps s1,
+    conv_props_skip cls cv tg base req props s0 = Some (ps, s1) -> frame s0 s1.
+  Proof.
+    induction props as [|[k s'] props IH]; intros HQ s0 ps s1 H; cbn [conv_props_skip] in H.
+    - injection H as _ <-. apply frame_refl.
+    - destruct (ustr_eqb k tg); [exact (IH (Forall_inv_tail HQ) _ _ _ H)|].
+      destruct base as [b0|]; [|discriminate].
+      destruct (conv_prop cls cv b0 req k s' s0) as [[p sa]|] eqn:Hp; [|discriminate].
+      destruct (conv_props_skip cls cv tg (Some b0) req props sa) as [[l sb]|] eqn:Hr; [|discriminate].
+      injection H as _ <-. eapply frame_trans; [exact (conv_prop_frame _ _ _ _ _ _ _ (Forall_inv HQ) Hp)|].
+      exact (IH (Forall_inv_tail HQ) _ _ _ Hr).
+  Qed.
+
+  Lemma PropP_Forall b : PropP Q b -> Forall (fun kv => Q (snd kv)) (sch_props b).
+  Proof. intro H. apply Forall_forall. intros [k sc] Hin. exact (H k sc Hin). Qed.
+
+  Lemma conv_ivariant_frame nm tg b s0 v vd s1 :
+    PropP Q b -> conv_ivariant cls cv nm tg b s0 = Some (v, vd, s1) -> frame s0 s1.
+  Proof.
+    intros HQ. pose proof (PropP_Forall b HQ) as HF.
+    destruct b as [bb|bty bfmt benum bcst bnv bsv bik bitems bai bmni bmxi buq bprops breq bap bmnp bmxp ballo banyo boneo bno bref bdflt btitle];
+      [discriminate|]. cbn [conv_ivariant]. cbn [sch_props] in HF.
+    assert (Hgen : match match assoc tg bprops with Some ts => cstr ts | None => None end with
+                   | Some v0 =>
+                       match conv_props_skip cls cv tg (name_opt nm) breq bprops s0 with
+                       | Some (ps, sa) =>
+                           if Sanitize.unique (map p_name (sort_props ps)) then Some (v0, VStruct (sort_props ps), sa) else None
+                       | None => None
+                       end
+                   | None => None
+                   end = Some (v, vd, s1) -> frame s0 s1).
+    { destruct (match assoc tg bprops with Some ts => cstr ts | None => None end); [|discriminate].
+      destruct (conv_props_skip cls cv tg (name_opt nm) breq bprops s0) as [[ps sa]|] eqn:Hp; [|discriminate].
+      destruct (Sanitize.unique _); [|discriminate]. intro H. injection H as _ _ <-.
+      exact (conv_props_skip_frame _ _ _ _ HF _ _ _ Hp). }
+    destruct bprops as [|[k1 s1'] [|kv2 rest]]; try exact Hgen.
+    destruct (cstr s1'); [|discriminate]. intro H. injection H as _ _ <-. apply frame_refl.
+  Qed.
+
+  Lemma conv_ibranches_frame nm tg : forall bs, Forall (PropP Q) bs -> forall s0 rvs s1,
+    conv_ibranches cls cv nm tg bs s0 = Some (rvs, s1) -> frame s0 s1.
+  Proof.
+    induction bs as [|b r IH]; intros HQ s0 rvs s1 H; cbn [conv_ibranches] in H.
+    - injection H as _ <-. apply frame_refl.
+    - destruct (conv_ivariant cls cv nm tg b s0) as [[[v vd] sa]|] eqn:Hv; [|discriminate].
+      destruct (conv_ibranches cls cv nm tg r sa) as [[vs2 s2]|] eqn:Hr; [|discriminate].
+      injection H as _ <-. eapply frame_trans; [exact (conv_ivariant_frame _ _ _ _ _ _ _ (Forall_inv HQ) Hv)|].
+      exact (IH (Forall_inv_tail HQ) _ _ _ Hr).
   Qed.
 
   Lemma conv_kind_frame k nm items props req ap oneo s0 te s1 :
@@ -129,11 +213,17 @@ Section NodeFrame.
     intros HQi HQp HQa HQo.
     destruct k as [| | | |mx mn pat|r|raws|deny| | |c|c|r| |tg]; cbn [conv_kind];
       try (intro H; injection H as _ <-; apply frame_refl).
-    10: { destruct tg; try discriminate. destruct (type_name cls nm); [|discriminate].
-          destruct oneo as [bs|]; [|discriminate].
-          destruct (conv_xbranches cv nm bs s0) as [[[rvs deny] sa]|] eqn:Hb; [|discriminate].
-          destruct (mk_tagged cls u TagExternal rvs deny); [|discriminate]. intro H. injection H as _ <-.
-          exact (conv_xbranches_frame _ _ HQo _ _ _ _ Hb). }
+    10: { destruct tg as [|tg|tg ct|]; try discriminate; (destruct (type_name cls nm); [|discriminate]);
+            (destruct oneo as [bs|]; [|discriminate]).
+          - destruct (conv_xbranches cv nm bs s0) as [[[rvs deny] sa]|] eqn:Hb; [|discriminate].
+            destruct (mk_tagged cls u TagExternal rvs deny); [|discriminate]. intro H. injection H as _ <-.
+            exact (conv_xbranches_frame _ _ HQo _ _ _ _ Hb).
+          - destruct (conv_ibranches cls cv nm tg bs s0) as [[rvs sa]|] eqn:Hb; [|discriminate].
+            destruct (mk_tagged cls u (TagInternal tg) rvs _); [|discriminate]. intro H. injection H as _ <-.
+            exact (conv_ibranches_frame _ _ _ HQo _ _ _ Hb).
+          - destruct (conv_abranches cv nm tg ct bs s0) as [[[rvs deny] sa]|] eqn:Hb; [|discriminate].
+            destruct (mk_tagged cls u (TagAdjacent tg ct) rvs deny); [|discriminate]. intro H. injection H as _ <-.
+            exact (conv_abranches_frame _ _ _ _ HQo _ _ _ _ Hb). }
     - destruct (assign DString _) as [sid sa] eqn:Ha. destruct (type_name cls nm); [|discriminate].
       intro H. injection H as _ <-. pose proof (assign_frame _ _ _ _ Ha) as F.
       destruct pat; [eapply frame_trans; [apply frame_set_regress|exact F]|exact F].
@@ -504,11 +594,62 @@ Section NodeExt.
       [reflexivity|].
     destruct bprops as [|[v sc] [|]].
     - destruct (xsimple _); [|reflexivity]. rewrite (IH (Forall_inv_tail HQ)). reflexivity.
-    - unfold conv_xvar. rewrite (Hcv _ (Forall_inv HQ v sc eq_refl)).
+    - unfold conv_xvar. rewrite (Hcv _ (Forall_inv HQ v sc (or_introl eq_refl))).
       match goal with |- match match ?x with _ => _ end with _ => _ end = _ => destruct x as [[[vd deny] sa]|] end;
         [|reflexivity].
       rewrite (IH (Forall_inv_tail HQ)). reflexivity.
     - destruct (xsimple _); [|reflexivity]. rewrite (IH (Forall_inv_tail HQ)). reflexivity.
+  Qed.
+
+  Lemma conv_avariant_ext nm tg ct b s0 : PropP Q b ->
+    conv_avariant cv1 nm tg ct b s0 = conv_avariant cv2 nm tg ct b s0.
+  Proof.
+    intros HQ. destruct b as [bb|bty bfmt benum bcst bnv bsv bik bitems bai bmni bmxi buq bprops breq bap bmnp bmxp ballo banyo boneo bno bref bdflt btitle];
+      [reflexivity|]. cbn [conv_avariant].
+    destruct bprops as [|[k1 s1'] [|[k2 s2'] [|]]]; try reflexivity.
+    unfold conv_xvar.
+    destruct (ustr_eqb k1 tg).
+    - destruct (cstr s1'); [|reflexivity]. rewrite (Hcv _ (HQ k2 s2' (or_intror (or_introl eq_refl)))). reflexivity.
+    - destruct (cstr s2'); [|reflexivity]. rewrite (Hcv _ (HQ k1 s1' (or_introl eq_refl))). reflexivity.
+  Qed.
+
+  Lemma conv_abranches_ext nm tg ct : forall bs, Forall (PropP Q) bs -> forall s0,
+    conv_abranches cv1 nm tg ct bs s0 = conv_abranches cv2 nm tg ct bs s0.
+  Proof.
+    induction bs as [|b r IH]; intros HQ s0; cbn [conv_abranches]; [reflexivity|].
+    rewrite (conv_avariant_ext nm tg ct b s0 (Forall_inv HQ)).
+    destruct (conv_avariant cv2 nm tg ct b s0) as [[[[v vd] d1] sa]|]; [|reflexivity].
+    rewrite (IH (Forall_inv_tail HQ)). reflexivity.
+  Qed.
+
+  Lemma conv_props_skip_ext tg base req : forall props, Forall (fun kv => Q (snd kv)) props -> forall s0,
+    conv_props_skip cls cv1 tg base req props s0 = conv_props_skip cls cv2 tg base req props s0.
+  Proof.
+    induction props as [|[k s'] props IH]; intros HQ s0; cbn [conv_props_skip]; [reflexivity|].
+    destruct (ustr_eqb k tg); [exact (IH (Forall_inv_tail HQ) s0)|].
+    destruct base as [b0|]; [|reflexivity].
+    rewrite (conv_prop_ext b0 req k s' s0 (Forall_inv HQ)).
+    destruct (conv_prop cls cv2 b0 req k s' s0) as [[p sa]|]; [|reflexivity].
+    rewrite (IH (Forall_inv_tail HQ)). reflexivity.
+  Qed.
+
+  Lemma conv_ivariant_ext nm tg b s0 : PropP Q b ->
+    conv_ivariant cls cv1 nm tg b s0 = conv_ivariant cls cv2 nm tg b s0.
+  Proof.
+    intros HQ. assert (HF : Forall (fun kv => Q (snd kv)) (sch_props b)).
+    { apply Forall_forall. intros [k sc] Hin. exact (HQ k sc Hin). }
+    destruct b as [bb|bty bfmt benum bcst bnv bsv bik bitems bai bmni bmxi buq bprops breq bap bmnp bmxp ballo banyo boneo bno bref bdflt btitle];
+      [reflexivity|]. cbn [conv_ivariant]. cbn [sch_props] in HF.
+    rewrite (conv_props_skip_ext tg (name_opt nm) breq bprops HF s0). reflexivity.
+  Qed.
+
+  Lemma conv_ibranches_ext nm tg : forall bs, Forall (PropP Q) bs -> forall s0,
+    conv_ibranches cls cv1 nm tg bs s0 = conv_ibranches cls cv2 nm tg bs s0.
+  Proof.
+    induction bs as [|b r IH]; intros HQ s0; cbn [conv_ibranches]; [reflexivity|].
+    rewrite (conv_ivariant_ext nm tg b s0 (Forall_inv HQ)).
+    destruct (conv_ivariant cls cv2 nm tg b s0) as [[[v vd] sa]|]; [|reflexivity].
+    rewrite (IH (Forall_inv_tail HQ)). reflexivity.
   Qed.
 
   Lemma conv_kind_ext k nm items props req ap oneo s0 :
@@ -516,8 +657,11 @@ Section NodeExt.
     conv_kind cls rid cv1 k nm items props req ap oneo s0 = conv_kind cls rid cv2 k nm items props req ap oneo s0.
   Proof.
     intros HQi HQp HQa HQo. destruct k; cbn [conv_kind]; try reflexivity.
-    5: { destruct tg; try reflexivity. destruct (type_name cls nm); [|reflexivity].
-         destruct oneo as [bs|]; [|reflexivity]. rewrite (conv_xbranches_ext _ _ HQo). reflexivity. }
+    5: { destruct tg as [|tg|tg ct|]; try reflexivity; (destruct (type_name cls nm); [|reflexivity]);
+           (destruct oneo as [bs|]; [|reflexivity]).
+         - rewrite (conv_xbranches_ext _ _ HQo). reflexivity.
+         - rewrite (conv_ibranches_ext _ _ _ HQo). reflexivity.
+         - rewrite (conv_abranches_ext _ _ _ _ HQo). reflexivity. }
     - destruct (type_name cls nm); [|reflexivity]. rewrite (conv_props_ext _ _ _ HQp). reflexivity.
     - destruct (assign DString s0). destruct ap as [vs|]; [|reflexivity]. rewrite (Hcv _ HQa). reflexivity.
     - rewrite (conv_items_ext _ _ HQi). reflexivity.
